@@ -4154,7 +4154,11 @@ impl DocumentOrder {
     }
 
     fn insert_after(&mut self, id: usize, info: &Singleton<ContextInfo>) -> Option<usize> {
-        self.remove(info.borrow().id);
+        let own = info.borrow().id;
+        if own == id || self.get(id) == 0 {
+            return None;
+        }
+        self.remove(own);
 
         let order = self.get(id);
         if order > 0 {
@@ -4167,7 +4171,11 @@ impl DocumentOrder {
     }
 
     fn insert_before(&mut self, id: usize, info: &Singleton<ContextInfo>) -> Option<usize> {
-        self.remove(info.borrow().id);
+        let own = info.borrow().id;
+        if own == id || self.get(id) == 0 {
+            return None;
+        }
+        self.remove(own);
 
         let order = self.get(id);
         if order > 0 {
